@@ -107,7 +107,11 @@ func genWKB(t *rapid.T) ([]byte, string, bool) {
 			}
 		case "type":
 			i := rapid.IntRange(0, len(lay.Types)-1).Draw(t, "ti")
-			v := rapid.OneOf(rapid.SampledFrom([]uint32{0, 8, 15, 16, 17, 1001, 0x80000001, 0x20000001, 1 << 24}), rapid.Uint32Range(0, 8), rapid.Uint32()).Draw(t, "tv")
+			// plain codes, unknown codes, and the ISO (1000*d + t: Z, M, ZM and beyond) and EWKB (flag bits 0x80/0x40/0x20
+			// in the top byte) families that other writers emit for geometries with more ordinates or an SRID
+			iso := rapid.Map(rapid.IntRange(0, 9*10+9), func(i int) uint32 { return uint32(i/10)*1000 + uint32(i%10) })
+			ewkb := rapid.Map(rapid.IntRange(0, 8*9-1), func(i int) uint32 { return uint32(i/9)<<29 | uint32(i%9) })
+			v := rapid.OneOf(rapid.SampledFrom([]uint32{0, 8, 15, 16, 17, 1001, 0x80000001, 0x20000001, 1 << 24}), rapid.Uint32Range(0, 8), iso, ewkb, rapid.Uint32()).Draw(t, "tv")
 			if lay.Flags[i] < len(data) {
 				putU32(data, lay.Types[i], data[lay.Flags[i]] == 0, v)
 			}
